@@ -13,8 +13,8 @@ Clauses
               (multicomplex, which forms no difference: <= 64 eps |Q_jk|)
   envelope    |H - exact|_jk <= TOL_H[method|k-bucket] * S_2(j, k) + floor
   hd-quadratic / hd-envelope   the same for Hessdiag(method, order in {2, 4, 6}) with TOL_HD[method|k-bucket]
-  extrapolated-order  |lib - exact| <= C_X[target|method] * min(U_basic, U_x) + floor (Hessian and Hessdiag) with the
-              Richardson-aware unit of multivar.extrapolated_unit: documented leading order p and spacing s (restated
+  extrapolated-order  |lib - exact| <= C_X[target|method] * T + C_XR * R + floor (Hessian and Hessdiag), T + R = the
+              Richardson-aware unit min(U_basic, U_x) of multivar.extrapolated_unit: documented leading order p and spacing s (restated
               there, never read from the library), U_x = truncation terms of total degree >= 2 + p + s t of the
               majorant series at the window heads + rounding at the window tails, times sum |rule weights| * sum
               |Richardson weights|, t = min(2, k_est - 1); asserted for the short geometric user sequences (step kind
@@ -42,17 +42,20 @@ CALIBRATE = bool(os.environ.get('NVERIF_CALIBRATE'))
 # reported multicomplex precision-loss classes so that the rest of the search space can be explored
 ASSUME_KNOWN = bool(os.environ.get('NVERIF_ASSUME_KNOWN'))
 FLOOR = 64.0
-QUAD_REAL = 256.0
+QUAD_REAL = 4096.0
 QUAD_MCX = 64.0
-K_CONS = 1e4
-# extrapolated-order clause: |err| <= C_X[target|method] * min(U_basic, U_x) + floor, asserted for the short geometric
-# user sequences (step kind 'geo') and for the default configuration of the real-step methods.  Worst ratios over
-# 2 x 8 seeds: Hessian central 0.07, central2 0.20, complex 0.061, multicomplex 0.26, forward 0.59, backward 7.1;
-# Hessdiag central 401, central2 947, complex 0.066, multicomplex (order 2) 0.008, forward 353, backward 423.
-C_X = {'hessian|central': 1.0, 'hessian|central2': 10.0, 'hessian|complex': 1.0, 'hessian|multicomplex': 10.0,
-       'hessian|forward': 10.0, 'hessian|backward': 100.0,
-       'hessdiag|central': 1e4, 'hessdiag|central2': 1e4, 'hessdiag|complex': 10.0, 'hessdiag|multicomplex': 10.0,
-       'hessdiag|forward': 1e4, 'hessdiag|backward': 1e4}
+K_CONS = 1e6
+# extrapolated-order clause: |err| <= C_X[target|method] * T + C_XR * R + floor, (T, R) = truncation and rounding parts
+# of min(U_basic, U_x); asserted for the short geometric user sequences (step kind 'geo') and for the default
+# configuration of the real-step methods.  Worst err/T over truncation-dominated entries (8 quick seeds + thorough
+# seed 0, 95 000 cases): Hessian central 0.20, central2 14, complex 0.14, multicomplex 0.26, forward 8.3, backward 66;
+# Hessdiag central 33, central2 57, complex 0.066, multicomplex (order 2) 0.008, forward 15, backward 68.
+# Worst err/R over rounding-dominated entries: 1.3e3 (Wynn / Richardson amplify pure rounding noise).
+C_X = {'hessian|central': 3.0, 'hessian|central2': 200.0, 'hessian|complex': 3.0, 'hessian|multicomplex': 3.0,
+       'hessian|forward': 100.0, 'hessian|backward': 1e3,
+       'hessdiag|central': 500.0, 'hessdiag|central2': 1e3, 'hessdiag|complex': 3.0, 'hessdiag|multicomplex': 3.0,
+       'hessdiag|forward': 200.0, 'hessdiag|backward': 1e3}
+C_XR = 1e5
 OVERFLOW = 1e150
 H_METHODS = ['central', 'central2', 'forward', 'backward', 'complex', 'multicomplex']
 REAL_STEP = ('central', 'central2', 'forward', 'backward')
@@ -139,7 +142,7 @@ class C04(Prop):
 
     def __init__(self):
         self.constants = {'FLOOR_eps_multiple': FLOOR, 'QUAD_REAL_eps_multiple': QUAD_REAL,
-                          'QUAD_MCX_eps_multiple': QUAD_MCX, 'K_CONS': K_CONS, 'C_X': dict(C_X), 'TOL_H': dict(TOL_H),
+                          'QUAD_MCX_eps_multiple': QUAD_MCX, 'K_CONS': K_CONS, 'C_X': dict(C_X), 'C_XR': C_XR, 'TOL_H': dict(TOL_H),
                           'TOL_HD': dict(TOL_HD)}
 
     def strategy(self, tier):
@@ -384,25 +387,31 @@ class C04(Prop):
                                               [hs[:, j]] if j == k else [hs[:, j], hs[:, k]], k_est, aux['ratio'], wx,
                                               dform, aux['amp'])
                     if ux is not None and ux[0] > 0 and math.isfinite(ux[0]):
-                        U, which, t = ux
-                        rx = excess / U
-                        xlabel = '%s|%s|%s|%s' % (target, method, bucket, 'geo' if spec['kind'] == 'geo' else cfg)
+                        U, which, t, Tp, Rp = ux
+                        xlabel = '%s|%s|%s' % (target, method, 'geo' if spec['kind'] == 'geo' else cfg)
                         if method == 'multicomplex' and (order or 0) >= 4:
                             xlabel += '|mcx-order>=4'
-                        ctx.track('x-order err/U|%s%s' % (xlabel, self._kc if method == 'multicomplex' else ''), rx,
-                                  dict(prog=mv.describe(case['prog']), x=x, j=j, k=k, lib=lv, exact=ex, U=U, unit=which,
-                                       step=spec, k_est=k_est, order=order))
+                        xlabel += self._kc if method == 'multicomplex' else ''
+                        summ = dict(prog=mv.describe(case['prog']), x=x, j=j, k=k, lib=lv, exact=ex, U=U, T=Tp, R=Rp,
+                                    unit=which, step=spec, k_est=k_est, order=order)
+                        # truncation-dominated and rounding-dominated windows are calibrated separately: extrapolation
+                        # (Richardson, Wynn) of estimates that differ only by rounding noise amplifies that noise
+                        if Tp >= Rp:
+                            ctx.track('x-order err/T (T>=R)|%s' % xlabel, excess / Tp, summ)
+                        else:
+                            ctx.track('x-order err/R (R>T)|%s' % xlabel, excess / Rp, summ)
                         cx = C_X.get('%s|%s' % (target, method)) if (spec['kind'] == 'geo' or (
                             cfg == 'default' and method in REAL_STEP)) else None
                         if cx is not None and not CALIBRATE:
                             if spec['kind'] == 'geo':
                                 ctx.count('x-order asserted on a short geometric user sequence|%s|%s' % (target, method))
-                            b = cx * U + floor
-                            if rx > cx:
-                                raise Violation('extrapolated-order', '%s[%d,%d]=%r exact %r: |err|=%.3g > C_X(%g)*U(%.3g, %s '
-                                                'unit, t=%d, k_est=%d)+floor(%.3g) (method=%s)'
-                                                % (target, j, k, lv, ex, err, cx, U, which, t, k_est, floor, method),
-                                                target=target, j=j, k=k, ratio=rx, k_est=k_est)
+                            bx = cx * Tp + C_XR * Rp
+                            b = bx + floor
+                            if excess > bx:
+                                raise Violation('extrapolated-order', '%s[%d,%d]=%r exact %r: |err|=%.3g > C_X(%g)*T(%.3g)+C_XR(%g)*'
+                                                'R(%.3g) [%s unit, t=%d, k_est=%d] + floor(%.3g) (method=%s)'
+                                                % (target, j, k, lv, ex, err, cx, Tp, C_XR, Rp, which, t, k_est, floor,
+                                                   method), target=target, j=j, k=k, ratio=excess / bx, k_est=k_est)
                 if tol is not None and not CALIBRATE:
                     b = min(b, tol * S + floor)
                     if ratio > tol:
